@@ -146,6 +146,21 @@ class Hang(Exception):
     """the engine asked for more randomness than any terminating run needs"""
 
 
+class BoundedOs:
+    """`os` stand-in for the kex modules: the real urandom, but a bounded number of draws (then `Hang`)"""
+
+    def __init__(self, limit):
+        import os
+
+        self._os, self.limit, self.calls = os, limit, 0
+
+    def urandom(self, n):
+        self.calls += 1
+        if self.calls > self.limit:
+            raise Hang("more than %d urandom draws in _generate_x" % self.limit)
+        return self._os.urandom(n)
+
+
 class FakeKey:
     def __init__(self, blob, algo):
         self.blob, self.algo = blob, algo
@@ -321,7 +336,19 @@ def run_scenario(sc):
         eng.hash_algo = lambda data: ToyHash(data, trace)
         draw = {"x": sc["x"]}
         if fam in ("grp", "gex"):
-            eng._generate_x = lambda: setattr(eng, "x", draw["x"])
+            # the REAL _generate_x runs (whatever else it records on the engine stays in place) on a bounded supply of
+            # real randomness; only its result is then replaced by the scenario's exponent
+            import paramiko.kex_gex as m_gex
+            import paramiko.kex_group1 as m_g1
+            real_gen = eng._generate_x
+            mod = m_gex if fam == "gex" else m_g1
+
+            def gen():
+                with patched(mod, os=BoundedOs(20000)):
+                    real_gen()
+                eng.x = draw["x"]
+
+            eng._generate_x = gen
         if fam == "gex" and sc.get("old"):
             eng.start_kex(_test_old_style=True)
         else:
@@ -692,6 +719,18 @@ def tamper_outgoing(t, ptype, kinds, idx, value, hit):
     t._send_message = send
 
 
+def ecdsa_body(key, data, hash_name):
+    """an ECDSA signature by paramiko key `key` over `data` with the NAMED hash (whatever the key's curve asks
+    for), in SSH form (mpint r, mpint s) — made with `cryptography` directly"""
+    from cryptography.hazmat.primitives import hashes
+    from cryptography.hazmat.primitives.asymmetric import ec
+    from cryptography.hazmat.primitives.asymmetric.utils import decode_dss_signature
+
+    h = {"sha256": hashes.SHA256, "sha384": hashes.SHA384, "sha512": hashes.SHA512}[hash_name]
+    r, s = decode_dss_signature(key.signing_key.sign(data, ec.ECDSA(h())))
+    return raw_mpint(r) + raw_mpint(s)
+
+
 def rebuild(ptype, *fields):
     """payload from (kind, value) fields: 's' bytes, 'm' mpint, 'u' uint32"""
     out = bytes([ptype])
@@ -854,11 +893,15 @@ def gex_boundary_scenarios(rng, n_sizes=None, big=True):
            (-random_odd(rng, 100), "negative100")]
     if big:
         ps += [((1 << 8192) - 1, "2^8192-1"), (1 << 8192, "2^8192")]
+    # the announced group is the peer's choice: nothing makes it a safe prime — even, composite, powers of two
+    ps += [(random_odd(rng, 1024) - 1, "even1024"), (random_odd(rng, 2048) + 1, "even2048"), (1 << 2047, "2^2047"),
+           ((1 << 1024) - 2, "2^1024-2"), (3 * 5 * 7 * 11 * random_odd(rng, 1100), "small-factors"),
+           (random_odd(rng, 700) ** 2, "square"), (6 * random_odd(rng, 1500), "multiple-of-6")]
     for p, plabel in ps:
         for old in (False, True) if abs(p).bit_length() in (1024, 2048) else (False,):
             sc0 = base_scenario(rng, rng.choice(["gex", "gex256"]), "c")
             sc0["old"] = old
-            g = rng.choice([2, 2, 5, 0, 1, -3, p + 1])
+            g = rng.choice([2, 2, 5, 0, 1, -3, p + 1, p - 1, p])
             xbits = 64 if abs(p).bit_length() > 2100 else max(2, min(abs(p).bit_length() - 2, 1023))
             x = rng.randrange(2, 1 << xbits)
             group = (31, odd_mpint(rng, p) + odd_mpint(rng, g), x)
@@ -867,7 +910,7 @@ def gex_boundary_scenarios(rng, n_sizes=None, big=True):
             sc["gex_p"], sc["label"] = p, "gex:c:group:" + plabel
             out.append(sc)
             if p >= 1 and 1024 <= p.bit_length() <= 8192 and p.bit_length() <= 4096:
-                for v, label in boundary_values(rng, p, 1):
+                for v, label in boundary_values(rng, p, 0 if plabel[0] in "es2m" else 1):
                     sc = dict(sc0)
                     sc["verify"] = rng.choice(["yes", "no"])
                     body = enc_str(b"hk") + odd_mpint(rng, v) + enc_str(b"sg")
